@@ -183,6 +183,39 @@ func FromHistory(c *runner.Ctx, r *runner.Rand, h *genfrag.History) []Struct {
 		}
 		return m
 	}})
+	// an mdat box on which both ways of filling were used: DataParts through AddSampleDataPart, then Data
+	// through AddSampleData / SetData (the other order is refused by the library: AddSampleDataPart panics
+	// with "cannot mix sample parts with monolithic sample data"). Whatever such a box holds, Size and
+	// both encoders must agree. Should the library one day refuse this order too, the box stays parts-only.
+	both := (a + b2) % 4
+	out = append(out, Struct{Kind: fmt.Sprintf("api/MdatBox[parts-then-data,%d]", both), Desc: fmt.Sprintf("mdat with %d bytes added as DataParts, then %d bytes as Data (variant %d)", b2, a, both), New: func() Encodable {
+		m := &mp4.MdatBox{}
+		mk := func(n, salt int) []byte {
+			b := make([]byte, n)
+			for i := range b {
+				b[i] = byte(salt + 3*i)
+			}
+			return b
+		}
+		m.AddSampleDataPart(mk(b2, 1))
+		if both >= 2 {
+			m.AddSampleDataPart(mk(1+b2/2, 2))
+		}
+		func() {
+			defer func() { _ = recover() }()
+			if both%2 == 0 {
+				m.AddSampleData(mk(a, 3))
+			} else {
+				m.SetData(mk(a, 4))
+			}
+		}()
+		if both == 3 {
+			u := mp4.NewGenericContainerBox("udta")
+			u.AddChild(m)
+			return u
+		}
+		return m
+	}})
 	// a container whose size sits at the limit of the compact header (2^32-1 | 2^32 | 2^32+1) thanks to a
 	// lazy mdat child (only headers are written): both encoders must draw the line at the same size
 	limit := []uint64{1<<32 - 1, 1 << 32, 1<<32 + 1, 1<<32 - 2}[r.Intn(4)]
@@ -275,6 +308,8 @@ func FromHistory(c *runner.Ctx, r *runner.Rand, h *genfrag.History) []Struct {
 	}
 	// one member of the family of codec-configuration structures (esds descriptor sizes and flags, dec3 substreams)
 	out = append(out, FromRecipe(c, PickRecipe(r))...)
+	// one member of the sidx family (fragaddr.go): Version x values around 2^32 in the public 64-bit fields
+	out = append(out, FromRecipe(c, PickSidxRecipe(r))...)
 	return out
 }
 
@@ -426,6 +461,8 @@ func FromRecipe(c *runner.Ctx, recipe string) []Struct {
 		return int(v)
 	}
 	switch fam {
+	case "sidx":
+		return fromSidxRecipe(c, recipe, f)
 	case "esds":
 		n, flags, url, fill, wrap := atoi("n"), byte(atoi("flags")), atoi("url"), atoi("fill") == 1, f["wrap"]
 		if n < 0 || n > 4<<20 || url < 0 || url > 255 {
